@@ -71,8 +71,8 @@ plan("C14", "exploration",
      {"pv-isolation-completed": 1}, "a pre-vote enabled server was isolated and reconnected",
      {"quick": {"pv-isolation-completed": 40, "pv-reconnect-checked": 15}, "thorough": {"pv-isolation-completed": 1000}})
 plan("C17", "exploration",
-     [sim("shutdown", 40), sim("random", 20)],
-     [sim("shutdown", 800), sim("random", 300), sim("churn", 300), sim("clients", 200)],
+     [sim("shutdown", 30), sim("random", 10), sim("restore", 20)],
+     [sim("shutdown", 800), sim("random", 300), sim("churn", 300), sim("clients", 200), sim("restore", 300)],
      {"call:apply": 10}, "client futures were observed (and, for the shutdown family, calls raced with and followed Shutdown)",
      {"quick": {"after-shutdown-call": 100}, "thorough": {"after-shutdown-call": 2000}})
 plan("C18", "exploration",
